@@ -174,7 +174,7 @@ def harnesses(tier, seed):
                           assumptions=["semi-symbolic: concrete model data, symbolic geometry", "real arithmetic (QF_NRA)"],
                           expect=['n2:step-inside-box'], nproc=None, wall_budget=(150 if tier == 'quick' else 1500), expect_exhaustive=False,
                           max_paths=(400 if tier == 'quick' else 5000)))
-    for mname in (['alt-upper', 'alt-lower'] if tier == 'quick' else list(ONESYM.keys())):
+    for mname in ([] if tier == 'quick' else list(ONESYM.keys())):      # (quick: 5 min each and mostly 'unknown' without the portfolio - measured)
         hs.append(Harness("trsbox[n=2,one-symbolic-bound,%s]" % mname, 'dfverif.checks.c12', 'body_onesym', params=dict(member=mname), cfg=nra(), functions=FUNCS,
                           bounds="n=2; g, H, Delta, xopt and three bounds concrete, ONE bound symbolic in a range around the value where the boundary refinement is limited by it",
                           assumptions=["semi-symbolic with one symbol", "real arithmetic (QF_NRA); gnew compared to 1e-9 absolute"],
